@@ -35,6 +35,44 @@ CLAIMED["C04"] = (
     "Lean 4 proof (invariant by induction over operations) with model-code correspondence check",
     "DESIGN.md §5 C04")
 
+CLAIMED["C06"] = (
+    "Lean 4 theorems over a line-by-line model of TraitDict (every mutator, dict_event_factory, the notifier list called in "
+    "order with shared dict objects): refinement to the builtin-dict model incl. insertion order, return values and exception "
+    "classes (setdefault under the stated containment hypothesis, with a proved negation witness for finding F13), atomicity, "
+    "the reconstruction law for the (removed, added, changed) triple, one/never-empty event, silence, the observer's merged "
+    "view, and 'every notifier receives a faithful triple' for any notifier list; lifted to all histories by induction. "
+    "The statement sequence of dict_event_factory is regenerated from the source by a translator on every run and proved equal "
+    "to the modelled one (so removing the added.copy() line breaks a proof obligation). Correspondence: model and real "
+    "TraitDict on the same histories.",
+    "Trusted: Lean kernel, standard axioms; Py.Dict model of CPython dict (insertion-ordered association list); hashing/== of "
+    "keys is structural in the model (1 == True == 1.0 collisions run on implementation + oracle only); translator dictevent; harness.",
+    "Lean 4 proof (refinement + reconstruction law by induction) with translated factory body and model-code correspondence",
+    "DESIGN.md §5 C06, §10.2")
+CLAIMED["C07"] = (
+    "Lean 4 theorems over a line-by-line model of TraitSet (all 13 mutators incl. the asymmetric validation of |=, ^= and "
+    "symmetric_difference_update; copy / deepcopy / pickle): refinement to the builtin-set model up to permutation, atomicity, "
+    "the delta law (removed ⊆ pre, added ∩ pre = ∅, (pre − removed) ∪ added = post, not both empty), silence, one event, copies "
+    "(equal members, same validator, no notifiers, still validating); lifted to histories by induction. Hypotheses forced by the "
+    "code are explicit and each has a proved negation witness and a known-finding entry (F24 ^= with an item present only after "
+    "validation, pinned by an existing test; F25 deepcopy re-validates). Correspondence: model and real TraitSet on the same histories.",
+    "Trusted: Lean kernel, standard axioms; Py.Set model (duplicate-free list up to Equiv); set.pop is given the popped member as a "
+    "hint from the implementation run; iteration order of operands is not modelled (validators used have order-independent outcomes); harness.",
+    "Lean 4 proof (refinement + delta law by induction) with model-code correspondence check",
+    "DESIGN.md §5 C07, §10.2")
+CLAIMED["C16"] = (
+    "Lean 4 theorems over a model of the legacy ListenerItem chain (register/unregister, the active tables, handlers for link "
+    "reassignment and list/dict item events, removal) on tree-shaped heaps: tree-shapedness is preserved by every allowed "
+    "mutation, active(item k) = the objects at depth k along the name after any history (refinement invariant by induction), hence "
+    "the legacy handler is called iff the changed object is currently reachable — the observe specification —, '.' links report "
+    "intermediate changes and ':' links do not, removal empties every table. The one place where the code departs (in-place "
+    "mutation of the FIRST link's container with a 3/4-argument handler is not reported, F60) is a stated exception with a proved "
+    "negation witness. Correspondence: both real APIs (on_trait_change and observe) registered on the same generated trees and "
+    "compared with the model and with Python reachability.",
+    "Trusted: Lean kernel, standard axioms; the observe side enters as the reachability specification (tied by the differential "
+    "of the two real APIs); ListenerParser is not modelled (names generated in both syntaxes from one AST); harness.",
+    "Lean 4 proof (refinement invariant over histories) with differential correspondence of the two real APIs",
+    "DESIGN.md §5 C16, §10.2")
+
 NOT_YET = "check not built yet in this round (planned in DESIGN.md §9); not claimed until it exists"
 
 
